@@ -353,7 +353,7 @@ func (env *Env) eqSeq(a SV, ai string, b SV, bi string, n string) string {
 		// element-wise equality: all such formulas share the binder name, so a goal of
 		// this shape gets every earlier eqseq hypothesis instantiated at its skolem index
 		if _, ok := c.quants[t]; !ok {
-			c.quants[t] = &quantInfo{src: []string{"eqseq-index"}, smt: []string{q}, body: body, at: len(c.lines)}
+			c.quants[t] = &quantInfo{src: []string{"eqseq-index"}, smt: []string{q}, body: body, at: len(c.lines), offs: []string{aoff, boff}}
 			c.qorder = append(c.qorder, t)
 		}
 	}
